@@ -387,6 +387,28 @@ ENTRY_SNIPPETS = {
 }
 
 
+XML_ENCODINGS = [  # known, unknown, multi-byte, odd spellings
+    b"utf-8", b"UTF-8", b"utf8", b"utf-16", b"utf-16le", b"utf-32", b"latin-1", b"iso-8859-1", b"ascii", b"us-ascii",
+    b"windows-1252", b"cp1252", b"koi8-r", b"utf-7", b"utf-9", b"x-foo", b"", b" ", b"none", b"undefined", b"idna",
+    b"rot13", b"hex", b"base64", b"zlib", b"unicode-escape", b"raw_unicode_escape", b"mbcs", b"punycode",
+    b"shift_jis", b"euc-jp", b"gb2312", b"big5", b"euc-kr", b"gbk", b"gb18030", b"iso-2022-jp", b"hz", b"cp932",
+    b"utf-8-sig", b"\xff", b"a" * 300, b"utf-8\x00", b"&amp;"]
+XML_DECLS = [b'<?xml version="1.0" encoding="%s"?>' % e for e in XML_ENCODINGS] + [
+    b"<?xml version='1.0' encoding='%s'?>" % e for e in (b"utf-8", b"utf-9", b"shift_jis")] + [
+    b'<?xml version="1.1" encoding="utf-8"?>', b'<?xml version="2.0"?>', b'<?xml version="1.0"?>', b"<?xml?>", b"<?xml ?>",
+    b'<?xml encoding="utf-8"?>', b'<?xml encoding="utf-9"?>', b'<?xml version="1.0" encoding="utf-8" standalone="yes"?>',
+    b'<?xml version="1.0" encoding="utf-8" standalone="maybe"?>', b'<?xml version="1.0" standalone="no" encoding="utf-8"?>',
+    b'<?xml version="1.0" encoding=utf-8?>', b'<?xml version="1.0" encoding="utf-8"', b'<?xml version="1.0" encoding="utf-8">',
+    b'<?XML version="1.0" encoding="utf-8"?>', b' <?xml version="1.0" encoding="utf-8"?>', b'\n<?xml version="1.0"?>',
+    b'\xef\xbb\xbf<?xml version="1.0" encoding="utf-8"?>', b'\xef\xbb\xbf<?xml version="1.0" encoding="utf-16"?>',
+    b'<?xml version="1.0" encoding="utf-8"?><?xml version="1.0" encoding="utf-8"?>', b"",
+    b'<?xml version="1.0" encoding="utf-8"?>\n<!DOCTYPE resources [<!ENTITY e "v">]>',
+    b'<?xml version="1.0" encoding="utf-8"?>\n<!DOCTYPE resources SYSTEM "x.dtd">',
+    b'<?xml version="1.0" encoding="utf-8"?>\n<!DOCTYPE resources [<!ENTITY a "&#38;a;&#38;a;"><!ENTITY b "&a;&a;&a;">]>',
+    b'<?xml version="1.0" encoding="utf-8"?>\n<?pi x?><!-- c -->']
+XML_BODY = b'\n<resources>\n  <string name="title">Open %1$s</string>\n  <string name="k1">value</string>\n</resources>\n'
+
+
 def shape_cases(ft, rng):
     """(ref bytes, l10n bytes) for every shape edit, on the localized side, the reference side, both"""
     out = []
@@ -395,6 +417,16 @@ def shape_cases(ft, rng):
         out.append((good, bad))
         out.append((bad, good))
         out.append((bad, bad))
+    if ft == "android":
+        # the XML declaration: encodings known / unknown / multi-byte to pyexpat, malformed declarations,
+        # every single-character edit of the usual one; and the file really encoded otherwise
+        good = XML_DECLS[0] + XML_BODY
+        for decl in XML_DECLS[1:] + near_misses(XML_DECLS[0]):
+            three(good, decl + XML_BODY)
+        text = good.decode("utf-8")
+        for codec in ("utf-16", "utf-16-le", "utf-32", "utf-8-sig", "shift_jis", "cp037"):
+            three(good, text.replace("utf-8", codec).encode(codec))
+            three(good, text.encode(codec))
     if ft == "ftl":
         for base in FTL_BASES:
             good = FTL_DEFS + ftl_entry(*base) + b"k1 = value\n"
